@@ -325,11 +325,15 @@ with c_ops (in_matrix : bool) (op : opcode) (ops : operands) : program :=
   | OpAll => [I2 OC_MOVEQ (POperand OD_ALL) (PReg R_OPERAND); I0 op]
   | OpDefault => [I2 OC_MOVEQ (POperand OD_DEFAULT) (PReg R_OPERAND); I0 op]
   | OpList l =>
-      (fix go (l : list opnd) : program :=
+      (* Parser._operand: after a matrix operand the command code is COLOR -- a matrix is sent as colours whatever commands
+         its block held (D69) -- and stays so for the operands that follow *)
+      (fix go (op : opcode) (l : list opnd) : program :=
          match l with
          | [] => []
-         | o :: r => c_operand in_matrix o ++ [I0 op] ++ go r
-         end) l
+         | o :: r =>
+             let op' := match o with MatrixInline _ _ _ _ | MatrixBlock _ _ => OC_COLOR | _ => op end in
+             c_operand in_matrix o ++ [I0 op'] ++ go op' r
+         end) op l
   end
 with c_operand (in_matrix : bool) (o : opnd) : program :=
   match o with
